@@ -19,6 +19,11 @@ ALPHA = ["a", " ", '"', "/", ";", "\\", "\n", "\r", " ", ":"]
 NASTY = ["//", "\nint 1\nreturn", "\"; int 1; //", "a\\", "x\r\nerr", " err", "l1:", "b main_l1", "\n#pragma version 2",
          "*/", "\t", "\x00", "\x0b", "\x0c", "\x85", "\x1c", "\x1d", "\x1e", " "]
 
+# long texts made of TEAL-looking words, with lengths around every common line-folding width (a folded or truncated
+# comment must stay a comment)
+NASTY += [("err " * k).strip() for k in (17, 19, 20, 25, 30, 40, 64, 300)] + \
+    ["x" * k + " err" for k in (66, 75, 76, 96, 116, 154, 157, 250, 1020, 4090)] + ["int 0 return " * 200]
+
 _CFGS = None
 
 
